@@ -239,3 +239,22 @@ def graph_replay(ctx, spec_dir, module, cfg, tag, replayer, proj_keys, header_fn
     except OSError:
         pass
     return res, g
+
+
+def replay_tlc_trace(ctx, res, replayer, proj, hdr, tag, replayer_args=None):
+    """Counterexample replay (DESIGN 4.3): executes a TLC error trace on the real code.
+    Returns (followed, output): followed=True when the implementation followed the whole trace
+    (every projection matched), i.e. the bad state of the specification was reached on real objects."""
+    os.makedirs(vlib.BUILD, exist_ok=True)
+    script = os.path.join(vlib.BUILD, "%s_%s_cex.script" % (ctx.prop, tag))
+    with open(script, "w") as f:
+        f.write("BEGIN cex_%s %s\n" % (tag, vlib.canon(hdr)))
+        for (label, st) in res.trace[1:]:
+            f.write("%s\t%s\n" % (label, vlib.canon(proj(st) if callable(proj) else vlib.project(st, proj))))
+        f.write("END\n")
+    rc, out = vlib.run_cmd([replayer] + (replayer_args or []), stdin_path=script, timeout=120)
+    pr = parse_replay_output(out)
+    text = "#replayer %s\n" % os.path.basename(replayer) + open(script).read()
+    os.remove(script)
+    followed = pr["summary"] is not None and pr["ok"] == 1
+    return followed, out, text
